@@ -78,3 +78,216 @@ theorem applyEdits_append {cmp : κ → κ → Ordering} (hc : TotalPreorder cmp
       simp [List.append_assoc]
 
 end DoltVerif.SortedDict
+
+namespace DoltVerif.SortedDict
+open DoltVerif.Prolly (TotalPreorder)
+variable {κ ν : Type}
+
+theorem cutAt_fst_gt (cmp : κ → κ → Ordering) (k : κ) : ∀ (l : List (κ × ν)), ∀ x ∈ (cutAt cmp k l).1, cmp k x.1 = .gt
+  | [], x, h => by simp [cutAt] at h
+  | kv :: l, x, h => by
+    simp only [cutAt] at h
+    cases hc : cmp k kv.1 with
+    | lt => rw [hc] at h; simp at h
+    | eq => rw [hc] at h; simp at h
+    | gt =>
+      rw [hc] at h
+      simp only [List.mem_cons] at h
+      rcases h with rfl | h
+      · exact hc
+      · exact cutAt_fst_gt cmp k l x h
+
+/-- an edit is a no-op on a sorted list: deleting an absent key, or putting the pair that is
+already there (same key bytes, same value) -/
+def NoopOn [BEq κ] [BEq ν] (cmp : κ → κ → Ordering) (l : List (κ × ν)) (e : κ × Option ν) : Prop :=
+  match l.find? (fun kv => cmp e.1 kv.1 == .eq), e.2 with
+  | none, none => True
+  | some kv, some v => (kv.1 == e.1 && kv.2 == v) = true
+  | _, _ => False
+
+/-- a single no-op edit leaves a sorted list as it is -/
+theorem noop_single [BEq κ] [BEq ν] [LawfulBEq κ] [LawfulBEq ν] {cmp : κ → κ → Ordering} (hc : TotalPreorder cmp)
+    (e : κ × Option ν) : ∀ (l : List (κ × ν)), Sorted cmp l → NoopOn cmp l e →
+      (cutAt cmp e.1 l).1 ++ emit e.1 e.2 ++ (cutAt cmp e.1 l).2 = l
+  | [], _, h => by
+    unfold NoopOn at h
+    simp only [List.find?_nil] at h
+    cases he : e.2 with
+    | none => simp [cutAt, emit]
+    | some v => rw [he] at h; exact absurd h (by simp)
+  | kv :: l, hs, h => by
+    unfold Sorted at hs
+    rw [List.pairwise_cons] at hs
+    simp only [cutAt]
+    cases hck : cmp e.1 kv.1 with
+    | lt =>
+      -- nothing in the list equals the key: the edit must be a delete
+      have hnone : (kv :: l).find? (fun x => cmp e.1 x.1 == .eq) = none := by
+        rw [List.find?_eq_none]
+        intro x hx
+        rcases List.mem_cons.mp hx with rfl | hx
+        · simp [hck]
+        · have := hc.lt_trans e.1 kv.1 x.1 hck (hs.1 x hx)
+          simp [this]
+      unfold NoopOn at h
+      rw [hnone] at h
+      cases he : e.2 with
+      | none => simp [emit]
+      | some v => rw [he] at h; exact absurd h (by simp)
+    | eq =>
+      have hsome : (kv :: l).find? (fun x => cmp e.1 x.1 == .eq) = some kv := by
+        simp [List.find?_cons, hck]
+      unfold NoopOn at h
+      rw [hsome] at h
+      cases he : e.2 with
+      | none => rw [he] at h; exact absurd h (by simp)
+      | some v =>
+        rw [he] at h
+        simp only [Bool.and_eq_true, beq_iff_eq] at h
+        have : (e.1, v) = kv := by rw [← h.1, ← h.2]
+        simp [emit, this]
+    | gt =>
+      have hfind : (kv :: l).find? (fun x => cmp e.1 x.1 == .eq) = l.find? (fun x => cmp e.1 x.1 == .eq) := by
+        simp [List.find?_cons, hck]
+      have h' : NoopOn cmp l e := by unfold NoopOn at h ⊢; rw [hfind] at h; exact h
+      have ih := noop_single hc e l hs.2 h'
+      simp only [List.cons_append]
+      rw [ih]
+
+theorem cutAt_snd_sublist (cmp : κ → κ → Ordering) (k : κ) : ∀ (l : List (κ × ν)), ((cutAt cmp k l).2).Sublist l
+  | [] => by simp [cutAt]
+  | kv :: l => by
+    simp only [cutAt]
+    cases hc : cmp k kv.1 with
+    | lt => simp
+    | eq => simp
+    | gt => exact (cutAt_snd_sublist cmp k l).cons kv
+
+/-- **a batch of no-op edits leaves a sorted list as it is** -/
+theorem noop_all [BEq κ] [BEq ν] [LawfulBEq κ] [LawfulBEq ν] {cmp : κ → κ → Ordering} (hc : TotalPreorder cmp) :
+    ∀ (es : Edits κ ν) (l : List (κ × ν)), Sorted cmp l → es.Pairwise (fun a b => cmp a.1 b.1 = .lt) →
+      (∀ e ∈ es, NoopOn cmp l e) → applyEdits cmp l es = l
+  | [], l, _, _, _ => rfl
+  | e :: es, l, hs, hes, hno => by
+    rw [List.pairwise_cons] at hes
+    have hsingle := noop_single hc e l hs (hno e (by simp))
+    have hspost : Sorted cmp (cutAt cmp e.1 l).2 := by
+      unfold Sorted at hs ⊢; exact List.Pairwise.sublist (cutAt_snd_sublist cmp e.1 l) hs
+    have hnopost : ∀ e' ∈ es, NoopOn cmp (cutAt cmp e.1 l).2 e' := by
+      intro e' he'
+      have h := hno e' (by simp [he'])
+      have hlt : cmp e.1 e'.1 = .lt := hes.1 e' he'
+      unfold NoopOn at h ⊢
+      have hfind : l.find? (fun kv => cmp e'.1 kv.1 == .eq)
+          = (cutAt cmp e.1 l).2.find? (fun kv => cmp e'.1 kv.1 == .eq) := by
+        conv => lhs; rw [← hsingle]
+        rw [List.find?_append, List.find?_append]
+        have h1 : (cutAt cmp e.1 l).1.find? (fun kv => cmp e'.1 kv.1 == .eq) = none := by
+          rw [List.find?_eq_none]
+          intro x hx
+          have hx1 : cmp x.1 e.1 = .lt := (hc.swap_lt _ _).mpr (cutAt_fst_gt cmp e.1 l x hx)
+          have := hc.gt_of_lt _ _ (hc.lt_trans x.1 e.1 e'.1 hx1 hlt)
+          simp [this]
+        have h2 : (emit e.1 e.2).find? (fun kv => cmp e'.1 kv.1 == .eq) = none := by
+          rw [List.find?_eq_none]
+          intro x hx
+          have hxk : x.1 = e.1 := by
+            cases he2 : e.2 with
+            | none => rw [he2] at hx; simp [emit] at hx
+            | some v => rw [he2] at hx; simp [emit] at hx; rw [hx]
+          have := hc.gt_of_lt _ _ hlt
+          rw [hxk]; simp [this]
+        rw [h1, h2]; simp
+      rw [← hfind]; exact h
+    have ih := noop_all hc es (cutAt cmp e.1 l).2 hspost hes.2 hnopost
+    show (cutAt cmp e.1 l).1 ++ emit e.1 e.2 ++ applyEdits cmp (cutAt cmp e.1 l).2 es = l
+    rw [ih]; exact hsingle
+
+theorem cutAt_fst_sublist (cmp : κ → κ → Ordering) (k : κ) : ∀ (l : List (κ × ν)), ((cutAt cmp k l).1).Sublist l
+  | [] => by simp [cutAt]
+  | kv :: l => by
+    simp only [cutAt]
+    cases hc : cmp k kv.1 with
+    | lt => simp
+    | eq => simp
+    | gt => exact (cutAt_fst_sublist cmp k l).cons₂ kv
+
+theorem cutAt_snd_lt {cmp : κ → κ → Ordering} (hc : TotalPreorder cmp) (k : κ) : ∀ (l : List (κ × ν)), Sorted cmp l →
+    ∀ x ∈ (cutAt cmp k l).2, cmp k x.1 = .lt
+  | [], _, x, h => by simp [cutAt] at h
+  | kv :: l, hs, x, h => by
+    unfold Sorted at hs
+    rw [List.pairwise_cons] at hs
+    simp only [cutAt] at h
+    cases hck : cmp k kv.1 with
+    | lt =>
+      rw [hck] at h
+      rcases List.mem_cons.mp h with rfl | hx
+      · exact hck
+      · exact hc.lt_trans k kv.1 x.1 hck (hs.1 x hx)
+    | eq =>
+      rw [hck] at h
+      simp only at h
+      have hle : cmp k kv.1 ≠ .gt := by rw [hck]; simp
+      exact hc.lt_of_le_of_lt k kv.1 x.1 hle (hs.1 x h)
+    | gt =>
+      rw [hck] at h
+      exact cutAt_snd_lt hc k l hs.2 x h
+
+theorem mem_applyEdits (cmp : κ → κ → Ordering) : ∀ (es : Edits κ ν) (l : List (κ × ν)) (x : κ × ν),
+    x ∈ applyEdits cmp l es → x ∈ l ∨ ∃ e ∈ es, x.1 = e.1
+  | [], l, x, h => Or.inl h
+  | e :: es, l, x, h => by
+    simp only [applyEdits, List.mem_append] at h
+    rcases h with (h | h) | h
+    · exact Or.inl ((cutAt_fst_sublist cmp e.1 l).subset h)
+    · right
+      refine ⟨e, by simp, ?_⟩
+      cases he : e.2 with
+      | none => rw [he] at h; simp [emit] at h
+      | some v => rw [he] at h; simp [emit] at h; rw [h]
+    · rcases mem_applyEdits cmp es _ x h with h | ⟨e', he', hx⟩
+      · exact Or.inl (cutAt_snd_subset cmp e.1 l x h)
+      · exact Or.inr ⟨e', by simp [he'], hx⟩
+
+/-- **applying a sorted batch to a sorted dictionary gives a sorted dictionary** -/
+theorem applyEdits_sorted {cmp : κ → κ → Ordering} (hc : TotalPreorder cmp) :
+    ∀ (es : Edits κ ν) (l : List (κ × ν)), Sorted cmp l → es.Pairwise (fun a b => cmp a.1 b.1 = .lt) →
+      Sorted cmp (applyEdits cmp l es)
+  | [], l, hs, _ => hs
+  | e :: es, l, hs, hes => by
+    rw [List.pairwise_cons] at hes
+    have hpost : Sorted cmp (cutAt cmp e.1 l).2 := by
+      unfold Sorted at hs ⊢; exact List.Pairwise.sublist (cutAt_snd_sublist cmp e.1 l) hs
+    have hpre : Sorted cmp (cutAt cmp e.1 l).1 := by
+      unfold Sorted at hs ⊢; exact List.Pairwise.sublist (cutAt_fst_sublist cmp e.1 l) hs
+    have ih := applyEdits_sorted hc es (cutAt cmp e.1 l).2 hpost hes.2
+    -- everything after the cut is above the edit key
+    have hafter : ∀ x ∈ applyEdits cmp (cutAt cmp e.1 l).2 es, cmp e.1 x.1 = .lt := by
+      intro x hx
+      rcases mem_applyEdits cmp es _ x hx with h | ⟨e', he', hxe⟩
+      · exact cutAt_snd_lt hc e.1 l hs x h
+      · rw [hxe]; exact hes.1 e' he'
+    have hemit : ∀ x ∈ emit e.1 e.2, x.1 = e.1 := by
+      intro x hx
+      cases he : e.2 with
+      | none => rw [he] at hx; simp [emit] at hx
+      | some v => rw [he] at hx; simp [emit] at hx; rw [hx]
+    show Sorted cmp ((cutAt cmp e.1 l).1 ++ emit e.1 e.2 ++ applyEdits cmp (cutAt cmp e.1 l).2 es)
+    unfold Sorted at *
+    rw [List.append_assoc, List.pairwise_append]
+    refine ⟨hpre, ?_, ?_⟩
+    · rw [List.pairwise_append]
+      refine ⟨?_, ih, ?_⟩
+      · cases he : e.2 with
+        | none => simp [emit]
+        | some v => simp [emit]
+      · intro a ha b hb
+        rw [hemit a ha]; exact hafter b hb
+    · intro a ha b hb
+      have hae : cmp a.1 e.1 = .lt := (hc.swap_lt _ _).mpr (cutAt_fst_gt cmp e.1 l a ha)
+      rcases List.mem_append.mp hb with hb | hb
+      · rw [hemit b hb]; exact hae
+      · exact hc.lt_trans a.1 e.1 b.1 hae (hafter b hb)
+
+end DoltVerif.SortedDict
